@@ -357,7 +357,9 @@ def gen_prefix(rng):
         return rng.choice(["", ".", ".a", "a.", "a..b", "..", "a.", ". "]), "inst-dots"
     # subtype forms
     sub = rng.choice(["_printer", "x", "a.b", "", ".", ".x", "x.", "x..y", "_sub", "é", "\x00", inst_of_bytes(rng, rng.choice([58, 63, 64])),
-                      "_sub._sub", "a._sub"])
+                      "_sub._sub", "a._sub",
+                      # a dotted <sub>: the 63-byte / control-character rule covers ALL of it, not its first component
+                      "a.\x00", "ok.b\x7f", "x.\x1f.y", "a." + inst_of_bytes(rng, rng.choice([60, 61, 62, 64])), "a.b." + "x" * rng.choice([59, 60, 70])])
     form = rng.choice(["%s._sub", "%s._sub", "%s._sub", "%s_sub", "%s._Sub", "%s._sub.", "%s._subx", "%s._sub._sub"])
     p = form % sub
     if rng.random() < 0.15:
